@@ -10,13 +10,16 @@ DEFAULT_OPTS = {"validate": 4, "timeout_ms": 5000, "budget_s": 300, "max_paths":
 
 META = {
     "level": "exploration",
-    "bounds": "structures with 3 or 4 tensor slots in 7 nesting templates (list, dict, attribute object, list in dict, object in "
+    "bounds": "(1) _get_unique_idxs on lists of n<=5 (thorough: 7) objects with SYMBOLIC identities (every == on identities forks in the "
+              "explorer, z3 prunes infeasible aliasing patterns and proves the index-map claims per path); (2) structures with 3 or 4 tensor slots in 7 nesting templates (list, dict, attribute object, list in dict, object in "
               "list, with tuples and mutable/immutable non-tensor leaves interleaved, a bare tensor); ALL aliasing patterns of the slots "
               "(restricted growth strings: 5 for 3 slots, 15 for 4) and 6 call histories (unique / non-unique x list / flat-tensor "
               "interface, repeated reconstruction, construct-before-get) are selected by symbolic selectors that the path explorer "
               "forks exhaustively; tiny concrete tensors of different shapes",
-    "outside": "deeper nesting, more than 4 slots, structures with reference cycles",
-    "assumptions": ["per-path checks are concrete (object identity, structure equality); the explorer guarantees that every "
+    "outside": "deeper nesting, more than 4 slots (7 for the index maps), structures with reference cycles",
+    "assumptions": ["layer 1: the module-level name id of xitorch._core.packer is rebound to return objects whose hashes collide and whose "
+                    "== is symbolic, so the real dict lookup compares identities through the solver",
+                    "layer 2: per-path checks are concrete (object identity, structure equality); the explorer guarantees that every "
                     "combination within the bound is visited (honest note: exhaustive enumeration driven by the path explorer, no "
                     "arithmetic reasoning is involved)",
                     "CrossHair was tried on _get_unique_idxs / Uniquifier with symbolic identity lists but did not confirm within "
